@@ -1,4 +1,5 @@
 import FlatccModel.Json
+import FlatccModel.JsonScanProofs
 /-!
 # C04 — the JSON parser on any text (model-level theorems for the string scanner)
 
@@ -92,5 +93,71 @@ theorem C04_string_fuel_enough (input acc : List Nat) (extra : Nat) :
               rw [f1] at a; rw [f2] at b
               rw [a, b]
           · exact ih r.length (by simp) r (acc ++ [c]) extra rfl
+
+end Flatcc.Props.C04
+
+/-! ## the runtime's generic scanners (`JsonScan.lean`): every read guarded exactly as the C code guards it
+
+Every dereference of the C functions is a guarded read in the model (`.oob` when outside the given bytes; the explicit
+nesting stack of `flatcc_json_parser_generic_json` likewise). The theorems hold for EVERY input, start position and context. -/
+namespace Flatcc.Props.C04
+open Flatcc.JsonScan
+
+/-- **No scanner reads outside the given bytes** (incl. the 8/16-byte fast paths of `space_ext`, `\u` escapes and surrogate
+pairs at the very end of the input, numbers ending after `-`, `.`, `e`), nor outside the nesting stack. -/
+theorem C04_scanners_read_in_bounds (inp : Array Nat) (i : Nat) (c : Ctx) (hi : i ≤ inp.size) :
+    space inp i c ≠ .error .oob ∧
+    spaceExt inp i c ≠ .error .oob ∧
+    number inp i c ≠ .error .oob ∧
+    skipConstant inp i c ≠ .error .oob ∧
+    unmatchedSymbol inp i c ≠ .error .oob ∧
+    generic inp i c ≠ .error .oob ∧
+    symbolStart inp i c ≠ .error .oob ∧
+    symbolEnd inp i c ≠ .error .oob ∧
+    constantStart inp i c ≠ .error .oob ∧
+    stringStart inp i c ≠ .error .oob ∧
+    stringEnd inp i c ≠ .error .oob ∧
+    stringPart inp i c ≠ .error .oob ∧
+    stringEscape inp i c ≠ .error .oob ∧
+    objectStart inp i c ≠ .error .oob ∧
+    objectEnd inp i c ≠ .error .oob ∧
+    arrayStart inp i c ≠ .error .oob ∧
+    arrayEnd inp i c ≠ .error .oob :=
+  ⟨space_no_oob inp i c hi, spaceExt_no_oob inp i c hi, number_no_oob inp i c hi, skipConstant_no_oob inp i c hi, unmatchedSymbol_no_oob inp i c hi, generic_no_oob inp i c hi, symbolStart_no_oob inp i c hi, symbolEnd_no_oob inp i c hi, constantStart_no_oob inp i c hi, stringStart_no_oob inp i c hi, stringEnd_no_oob inp i c hi, stringPart_no_oob inp i c hi, stringEscape_no_oob inp i c hi, objectStart_no_oob inp i c hi, objectEnd_no_oob inp i c hi, arrayStart_no_oob inp i c hi, arrayEnd_no_oob inp i c hi⟩
+
+/-- **Positions and error locations stay inside the input**: the returned position `p` satisfies `i ≤ p ≤ end`, a newly
+recorded error location lies in `[i, end]`, and an earlier error is never overwritten (first error wins). -/
+theorem C04_scanners_positions_in_range (inp : Array Nat) (i : Nat) (c : Ctx) (hi : i ≤ inp.size) :
+    (∀ p c', space inp i c = .ok (p, c') → InRange inp.size i c p c') ∧
+    (∀ p c', spaceExt inp i c = .ok (p, c') → InRange inp.size i c p c') ∧
+    (∀ p c', number inp i c = .ok (p, c') → InRange inp.size i c p c') ∧
+    (∀ p c', skipConstant inp i c = .ok (p, c') → InRange inp.size i c p c') ∧
+    (∀ p c', unmatchedSymbol inp i c = .ok (p, c') → InRange inp.size i c p c') ∧
+    (∀ p c', generic inp i c = .ok (p, c') → InRange inp.size i c p c') ∧
+    (∀ p c', symbolStart inp i c = .ok (p, c') → InRange inp.size i c p c') ∧
+    (∀ p c', symbolEnd inp i c = .ok (p, c') → InRange inp.size i c p c') ∧
+    (∀ p c', constantStart inp i c = .ok (p, c') → InRange inp.size i c p c') ∧
+    (∀ p c', stringStart inp i c = .ok (p, c') → InRange inp.size i c p c') ∧
+    (∀ p c', stringEnd inp i c = .ok (p, c') → InRange inp.size i c p c') ∧
+    (∀ p c', stringPart inp i c = .ok (p, c') → InRange inp.size i c p c') ∧
+    (∀ p c', stringEscape inp i c = .ok (p, c') → InRange inp.size i c p c') :=
+  ⟨space_pos_in_range inp i c hi, spaceExt_pos_in_range inp i c hi, number_pos_in_range inp i c hi, skipConstant_pos_in_range inp i c hi, unmatchedSymbol_pos_in_range inp i c hi, generic_pos_in_range inp i c hi, symbolStart_pos_in_range inp i c hi, symbolEnd_pos_in_range inp i c hi, constantStart_pos_in_range inp i c hi, stringStart_pos_in_range inp i c hi, stringEnd_pos_in_range inp i c hi, stringPart_pos_in_range inp i c hi, stringEscape_pos_in_range inp i c hi⟩
+
+/-- **The skipper of unknown values terminates** on every input (the fuel `end - pos + 1` of the model is never exhausted),
+never nests deeper than the C array `stack[FLATCC_JSON_PARSE_GENERIC_MAX_NEST]` (the constant is re-read from the headers on
+every run) and every state it passes through has its position inside the input. -/
+theorem C04_generic_skipper_total (inp : Array Nat) (i : Nat) (c : Ctx) (hi : i ≤ inp.size) :
+    (∃ r, generic inp i c = .ok r) ∧
+    (∀ extra, genericF (inp.size - i + 1 + extra) inp i c = generic inp i c) ∧
+    (∀ s, Reach (gStep inp) ⟨true, i, [], c⟩ s → s.stk.length ≤ MAX_NEST ∧ i ≤ s.i ∧ s.i ≤ inp.size) :=
+  ⟨generic_terminates inp i c hi, fun extra => generic_fuel_enough inp i c hi extra,
+   fun s h => ⟨generic_nesting_bounded inp i c hi s h, generic_states_in_range inp i c hi s h⟩⟩
+
+/-- the other loops terminate as well -/
+theorem C04_scanner_loops_terminate (inp : Array Nat) (i : Nat) (c : Ctx) (hi : i ≤ inp.size) :
+    (∃ r, space inp i c = .ok r) ∧ (∃ r, number inp i c = .ok r) ∧ (∃ r, skipConstant inp i c = .ok r) ∧
+    (∃ r, unmatchedSymbol inp i c = .ok r) ∧ (∃ r, symbolEnd inp i c = .ok r) :=
+  ⟨space_terminates inp i c hi, number_terminates inp i c hi, skipConstant_terminates inp i c hi,
+   unmatchedSymbol_terminates inp i c hi, symbolEnd_terminates inp i c hi⟩
 
 end Flatcc.Props.C04
